@@ -51,13 +51,51 @@ pub proof fn axiom_slice_len_bound(s: &[char])
 pub trait PrefixMatch<T: KeyOf> {
     /// "no key of this dictionary is the empty string" (needed for progress of the recursion)
     spec fn keys_nonempty(&self) -> bool;
+    /// the entry a lookup selects is a function of the dictionary and the text (A2/A3)
+    spec fn pre_matched(&self, s: Seq<char>) -> Option<T>;
     fn match_prefix_char_slice(&self, to_match: &[char]) -> (r: Option<&T>)
         ensures r matches Some(t) ==> is_prefix_of(t.pre(), to_match@)
-            && (self.keys_nonempty() ==> t.pre().len() > 0);
+            && (self.keys_nonempty() ==> t.pre().len() > 0),
+            r matches Some(t) ==> self.pre_matched(to_match@) == Some(*t),
+            r is None ==> self.pre_matched(to_match@) is None;
 }
 pub trait SuffixMatch<T: KeyOf> {
+    spec fn suf_matched(&self, s: Seq<char>) -> Option<T>;
     fn match_suffix_char_slice(&self, to_match: &[char]) -> (r: Option<&T>)
-        ensures r matches Some(t) ==> is_suffix_of(t.suf(), to_match@);
+        ensures r matches Some(t) ==> is_suffix_of(t.suf(), to_match@),
+            r matches Some(t) ==> self.suf_matched(to_match@) == Some(*t),
+            r is None ==> self.suf_matched(to_match@) is None;
+}
+/// A2: `<[char]>::starts_with` / `ends_with` compare exactly (vstd ties the result to an
+/// uninterpreted-for-us `spec_slice_starts_with` under `char: obeys_eq_spec`; this states what
+/// std documents: "returns true if needle is a prefix / suffix of the slice")
+#[verifier::external_body]
+pub proof fn axiom_char_eq()
+    ensures <char as vstd::std_specs::cmp::PartialEqSpec>::obeys_eq_spec(),
+{}
+#[verifier::external_body]
+pub broadcast proof fn axiom_char_slice_starts_with(a: &[char], b: &[char])
+    ensures
+        #[trigger] vstd::std_specs::slice::spec_slice_starts_with(a, b) == is_prefix_of(b@, a@),
+{}
+#[verifier::external_body]
+pub broadcast proof fn axiom_char_slice_ends_with(a: &[char], b: &[char])
+    ensures
+        #[trigger] vstd::std_specs::slice::spec_slice_ends_with(a, b) == is_suffix_of(b@, a@),
+{}
+/// C03/C15 segmentation reference, prefix side ("budget"): scanning from `start`, `rb` is the
+/// right border of the FIRST occurrence of the closing bracket `right`
+pub open spec fn first_close_from(env: Seq<char>, start: int, right: Seq<char>, rb: int) -> bool {
+    &&& start + right.len() <= rb <= env.len()
+    &&& is_prefix_of(right, env.subrange(rb - right.len(), env.len() as int))
+    &&& forall|j: int| start <= j < rb - right.len() ==> !is_prefix_of(right, #[trigger] env.subrange(j, env.len() as int))
+}
+/// suffix side ("truth", "stamp"): scanning leftwards from `end`, `lb` is the left border of
+/// the LAST occurrence of the opening bracket `left` that ends at or before `end`
+pub open spec fn last_open_before(env: Seq<char>, end: int, left: Seq<char>, lb: int) -> bool {
+    &&& 0 <= lb && lb + left.len() <= end <= env.len()
+    &&& is_suffix_of(left, env.subrange(0, lb + left.len()))
+    &&& forall|j: int| lb + left.len() < j <= end ==> !is_suffix_of(left, #[trigger] env.subrange(0, j))
 }
 pub trait StartsWithStr {
     spec fn chars_of(&self) -> Seq<char>;
@@ -71,30 +109,48 @@ impl StartsWithStr for [char] {
 }
 impl PrefixMatch<String> for nar_dev_utils::PrefixMatchDict {
     uninterp spec fn keys_nonempty(&self) -> bool;
+    uninterp spec fn pre_matched(&self, s: Seq<char>) -> Option<String>;
     #[verifier::external_body]
     fn match_prefix_char_slice(&self, to_match: &[char]) -> (r: Option<&String>) { nar_dev_utils::PrefixMatch::match_prefix_char_slice(self, to_match) }
 }
 impl PrefixMatch<(String, String)> for nar_dev_utils::BiFixMatchDictPair {
     uninterp spec fn keys_nonempty(&self) -> bool;
+    uninterp spec fn pre_matched(&self, s: Seq<char>) -> Option<(String, String)>;
     #[verifier::external_body]
     fn match_prefix_char_slice(&self, to_match: &[char]) -> (r: Option<&(String, String)>) { nar_dev_utils::PrefixMatch::match_prefix_char_slice(self, to_match) }
 }
 impl PrefixMatch<(String, String)> for (String, String) {
     open spec fn keys_nonempty(&self) -> bool { self.0@.len() > 0 }
+    uninterp spec fn pre_matched(&self, s: Seq<char>) -> Option<(String, String)>;
     #[verifier::external_body]
     fn match_prefix_char_slice(&self, to_match: &[char]) -> (r: Option<&(String, String)>) { nar_dev_utils::PrefixMatch::match_prefix_char_slice(self, to_match) }
 }
 impl SuffixMatch<String> for nar_dev_utils::SuffixMatchDict {
+    uninterp spec fn suf_matched(&self, s: Seq<char>) -> Option<String>;
     #[verifier::external_body]
     fn match_suffix_char_slice(&self, to_match: &[char]) -> (r: Option<&String>) { nar_dev_utils::SuffixMatch::match_suffix_char_slice(self, to_match) }
 }
 impl SuffixMatch<(String, String)> for nar_dev_utils::SuffixMatchDictPair<String> {
+    uninterp spec fn suf_matched(&self, s: Seq<char>) -> Option<(String, String)>;
     #[verifier::external_body]
     fn match_suffix_char_slice(&self, to_match: &[char]) -> (r: Option<&(String, String)>) { nar_dev_utils::SuffixMatch::match_suffix_char_slice(self, to_match) }
 }
 impl SuffixMatch<(String, String)> for (String, String) {
+    uninterp spec fn suf_matched(&self, s: Seq<char>) -> Option<(String, String)>;
     #[verifier::external_body]
     fn match_suffix_char_slice(&self, to_match: &[char]) -> (r: Option<&(String, String)>) { nar_dev_utils::SuffixMatch::match_suffix_char_slice(self, to_match) }
+}
+
+/// the last-opening-bracket fact found on the cut environment `env[..end]` holds on `env`
+pub proof fn lemma_last_open_prefix(env: Seq<char>, end: int, left: Seq<char>, lb: int)
+    requires 0 <= end <= env.len(), last_open_before(env.subrange(0, end), end, left, lb)
+    ensures last_open_before(env, end, left, lb)
+{
+    let cut = env.subrange(0, end);
+    assert forall|j: int| lb + left.len() < j <= end implies !is_suffix_of(left, #[trigger] env.subrange(0, j)) by {
+        assert(cut.subrange(0, j) =~= env.subrange(0, j));
+    }
+    assert(cut.subrange(0, lb + left.len()) =~= env.subrange(0, lb + left.len()));
 }
 
 /// R16: `String::from_iter(<char slice>)` -> this helper (assumed: builds the string of those chars)
